@@ -163,18 +163,24 @@ def shake_draw(k):
 def vmess_nonce(count, iv_arr, iv_off=None):
     """AEAD nonce of chunk `count`: big-endian 16-bit counter followed by bytes 2..12 of the body IV (as the little-endian
     concatenation vf.ideal uses for nonces)"""
+    if isinstance(iv_arr, tuple):
+        iv_arr, iv_off = iv_arr
     o = bv64(0) if iv_off is None else iv_off
     bs = [z3.Select(iv_arr, o + bv64(i)) for i in reversed(range(2, 12))] + [bvv(count & 0xff, 8), bvv(count >> 8, 8)]
     return z3.Concat(*bs)
 
 
+def _ao(x):
+    return x if isinstance(x, tuple) else (x, bv64(0))
+
+
 def vmess_body_kid(security, key_arr):
-    kb = ideal.bits(key_arr, bv64(0), 16)
+    kb = ideal.bits(_ao(key_arr)[0], _ao(key_arr)[1], 16)
     return ('vmess-chacha', (kb,)) if security == 'Chacha20Poly1305' else ('raw', (kb,))
 
 
 def vmess_len_kid(security, key_arr):
-    kb = ideal.bits(key_arr, bv64(0), 16)
+    kb = ideal.bits(_ao(key_arr)[0], _ao(key_arr)[1], 16)
     return ('vmess-chacha(kdf16|auth_len)', (kb,)) if security == 'Chacha20Poly1305' else ('kdf16|auth_len', (kb,))
 
 
@@ -207,4 +213,43 @@ def vmess_body_stream(security, chunk, padding, body_key, body_iv, len_key, len_
         if padding == 'Shake':
             s.raw(pad)
     s.draws = draw
+    return s
+
+
+VMESS_SECURITY = {'Aes128Gcm': 3, 'Chacha20Poly1305': 4}
+
+
+def vmess_request(cmdkey, security, chunk, padding, command, K, name='vreq', hi=0x3000):
+    """a complete VMess AEAD request as an independent client writes it:
+    [auth id 16][AEAD(header length) 2+16][connection nonce 8][AEAD(header) n+16][data section]
+    header: ver=1, body IV 16, body key 16, response auth V, options, padding P<<4 | security, 0, command, port, address type,
+    address, P random bytes, FNV1a32 of everything before it.  Header keys/IVs: KDF(cmd key, label, auth id, connection nonce)."""
+    s = Stream(name + '_wire')
+    authid = s.raw(16)
+    kb = ideal.bits(cmdkey, bv64(0), 16)
+    nonce_pos = bv64(16 + 18)
+    ab = ideal.bits(s.base, bv64(0), 16)
+    nb = ideal.bits(s.base, nonce_pos, 8)
+    aad = (s.base, bv64(0), bv64(16))
+    hp = z3.Array(name + '_header', BV64, BV8)
+    P = z3.BitVec(name + '_hpad', 8)
+    mask = 1 | {'Plain': 0, 'Shake': 4, 'Auth': 16}[chunk] | (8 if padding == 'Shake' else 0)
+    alen = 2 + 1 + 4                                    # port, type, IPv4
+    hlen = bv64(38 + alen + 4) + z3.ZeroExt(56, P)
+    s.constraints += [z3.ULE(P, 15), z3.Select(hp, bv64(0)) == 1, z3.Select(hp, bv64(34)) == mask,
+                      z3.Select(hp, bv64(35)) == ((P << 4) | VMESS_SECURITY[security]), z3.Select(hp, bv64(36)) == 0,
+                      z3.Select(hp, bv64(37)) == (1 if command == 'TCP' else 2), z3.Select(hp, bv64(40)) == 1]
+    fnv = z3.BitVec('fnv_of_header', 32)
+    for i in range(4):
+        s.constraints.append(z3.Select(hp, hlen - 4 + bv64(i)) == z3.Extract(31 - 8 * i, 24 - 8 * i, fnv))
+    lk = ('kdf16|VMess Header AEAD Key_Length|*16|*8', (kb, ab, nb))
+    liv = ideal.kdf_fn('kdfn|VMess Header AEAD Nonce_Length|*16|*8', (kb, ab, nb), 12)
+    s.seal(lk, liv, (be16(None, hlen), bv64(0), bv64(2)), aad=aad, label=name + ':hlen')
+    s.raw(8)
+    hk = ('kdf16|VMess Header AEAD Key|*16|*8', (kb, ab, nb))
+    hiv = ideal.kdf_fn('kdfn|VMess Header AEAD Nonce|*16|*8', (kb, ab, nb), 12)
+    s.seal(hk, hiv, (hp, bv64(0), hlen), aad=aad, label=name + ':header')
+    s.fields.update(header=hp, hlen=hlen, authid=authid, fnv=fnv, body_iv=(hp, bv64(1)), body_key=(hp, bv64(17)), addr=(hp, bv64(38), bv64(alen)))
+    s.header_segments = len(s.segments)
+    vmess_body_stream(security, chunk, padding, (hp, bv64(17)), (hp, bv64(1)), (hp, bv64(17)), (hp, bv64(1)), K, name + '_P', stream=s, hi=hi)
     return s
